@@ -130,6 +130,9 @@ def replay_histories(batch):
                     objs[op['obj']].method = op['v']
                 elif kind == 'clear':
                     fdm.FD_RULES.clear()
+                elif kind == 'flood':
+                    for k_ in range(op['count']):
+                        fdm.LogRule(n=1 + k_ % 2, method=('forward', 'central', 'backward')[k_ % 3], order=2 + 2 * (k_ % 2)).rule(1.05 + 0.0625 * k_)
                 elif kind == 'prepopulate':
                     fdm.LogRule(n=op['n'], method=op['m'], order=op['o']).rule(op['ratio'][0] / op['ratio'][1])
                 elif kind == 'nested':
@@ -174,7 +177,7 @@ def replay_histories(batch):
             except (TypeError, ValueError, IndexError):
                 keys = None          # the cache is not keyed by (step_ratio, parity, num_terms) tuples: projection unavailable, results still compared
             want = sorted((exact(k[0][0] / k[0][1]), k[1], k[2]) for k in e['cache'])
-            if keys is not None and keys != want:
+            if keys is not None and keys != want and not e.get('nocache'):
                 bad = (step, 'cache', 'rule cache holds keys %r, specification %r' % (keys, want))
                 break
             gens = e['gens']
@@ -226,6 +229,20 @@ def run(tier, rep):
     hists = [(i, r['hist']) for i, r in enumerate(sim.records)]
     if len(hists) < 100:
         raise vlib.MachineryError('too few histories generated: %d' % len(hists))
+    # flooded cache: the Prepopulate action of the specification applied 80 times with distinct ratios between two calls of the same
+    # objects (a behaviour of History with a larger MaxOps; the key-set projection is not compared in these, only the results)
+    def _ev(op):
+        return dict(op=op, cache=[], gens={}, nocache=True)
+    for fi, (cfgs, count) in enumerate(((((('central', 1, 2), ('forward', 1, 2))), 80), ((('central', 2, 2), ('backward', 2, 1), ('complex', 1, 2)), 70))):
+        h_ = []
+        for j_, (m_, n_, o_) in enumerate(cfgs, 1):
+            h_.append(_ev(dict(op='construct', obj=j_, cfg=0, gen=0, kw=0, m=m_, n=n_, o=o_)))
+            h_.append(_ev(dict(op='call', obj=j_, x=1 + j_ % 3, m=m_, n=n_, o=o_, gen=0, key=[], hit=False)))
+        h_.append(_ev(dict(op='flood', count=count)))
+        for j_, (m_, n_, o_) in enumerate(cfgs, 1):
+            h_.append(_ev(dict(op='call', obj=j_, x=1 + j_ % 3, m=m_, n=n_, o=o_, gen=0, key=[], hit=True)))
+            h_.append(_ev(dict(op='call', obj=j_, x=2 + j_ % 2, m=m_, n=n_, o=o_, gen=0, key=[], hit=True)))
+        hists.append((100000 + fi, h_))
     sigs = sorted({(e['op']['m'], e['op']['n'], e['op']['o'], e['op']['gen'], e['op']['x']) for _, h in hists for e in h if e['op']['op'] == 'call'})
     nsigs = sorted({((o['m'], o['n'], o['o'], o['gen'], o['x']), (o['im'], o['in'], o['io'], o['igen'])) for _, h in hists for e in h for o in [e['op']] if o['op'] == 'nested'})
     refs = dict(fresh_map(reference, sigs))
